@@ -380,6 +380,10 @@ class Property(css_parser.util.Base):
             if self._normalize(new['literalpriority']) not in ('', 'important'):
                 self._log.error('Property: No CSS priority value: %s' %
                                 self._normalize(new['literalpriority']))
+                # (a logging log: the declaration is malformed, not one
+                # with a priority of its own kind)
+                self.wellformed = False
+                return
             self.wellformed = self.wellformed and wellformed
             self._literalpriority = new['literalpriority']
             self._priority = self._normalize(self.literalpriority)
